@@ -1,4 +1,6 @@
 import RaftModel.Proto
+import RaftModel.ProtoCfg
+import RaftModel.ProtoDisc
 import RaftModel.Driver.Util
 
 /-
@@ -117,6 +119,82 @@ def parseEvent (toks : List String) : Option Event :=
     | _, _, _, _ => none
   | _ => none
 
+
+/-- the configuration-aware events of PC (`RaftModel/ProtoCfg.lean`): `win` / `commitleader` carry the
+applied index as a last field; `cfginit <cfg>`; `applyconf i idx <cfg>`.  A `win` / `commitleader` line
+without the applied index (traces of earlier rounds) is taken as the plain P event. -/
+def parseCEvent (toks : List String) : Option (CEvent ⊕ Event) :=
+  match toks with
+  | "cfginit" :: r =>
+    match takePCfg r with
+    | some (cfg, []) => some (.inl (.cfgInit cfg))
+    | _ => none
+  | "applyconf" :: i :: idx :: r =>
+    match i.toNat?, idx.toNat?, takePCfg r with
+    | some i, some idx, some (cfg, []) => some (.inl (.applyConf i idx cfg))
+    | _, _, _ => none
+  | "win" :: i :: r =>
+    match i.toNat?, takePCfg r with
+    | some i, some (cfg, r') => match takeNatList r' with
+      | some (q, []) => some (.inr (.win i cfg q))
+      | some (q, [a]) => match a.toNat? with
+        | some a => some (.inl (.win i cfg q a))
+        | none => none
+      | _ => none
+    | _, _ => none
+  | "commitleader" :: i :: c :: r =>
+    match i.toNat?, c.toNat?, takePCfg r with
+    | some i, some c, some (cfg, r') => match takeNatList r' with
+      | some (q, []) => some (.inr (.commitLeader i c cfg q))
+      | some (q, [a]) => match a.toNat? with
+        | some a => some (.inl (.commitLeader i c cfg q a))
+        | none => none
+      | _ => none
+    | _, _, _ => none
+  | "rresp" :: i :: rid :: idx :: r =>
+    match i.toNat?, rid.toNat?, idx.toNat?, takePCfg r with
+    | some i, some rid, some idx, some (cfg, []) => some (.inr (.read (.resp i rid idx cfg)))
+    | some i, some rid, some idx, some (cfg, [a]) => match a.toNat? with
+      | some a => some (.inl (.resp i rid idx cfg a))
+      | none => none
+    | _, _, _, _ => none
+  | "rstate" :: j :: rid :: idx :: r =>
+    match j.toNat?, rid.toNat?, idx.toNat?, takePCfg r with
+    | some j, some rid, some idx, some (cfg, []) => some (.inr (.read (.rstate j rid idx cfg)))
+    | some j, some rid, some idx, some (cfg, [a]) => match a.toNat? with
+      | some a => some (.inl (.rstate j rid idx cfg a))
+      | none => none
+    | _, _, _, _ => none
+  | _ => match parseEvent toks with
+    | some e => some (.inl (.base e))
+    | none => none
+
+/-- the events of the discipline layer PD (`RaftModel/ProtoDisc.lean`): `apply i k`, `restart i a`,
+`recvappc i <app>`; `campaign`, `lappend`, `sendapp`, `win`, `commitleader`, `rresp`, `rstate` go through
+their PD counterparts; everything else is a PC event.  Lines of earlier trace formats (no applied index on
+`win`/`commitleader`/`rresp`/`rstate`/`restart`, separate `recvapp`/`commitapp`) are not accepted. -/
+def parseDEvent (toks : List String) : Option (DEvent ⊕ Event) :=
+  match toks with
+  | "apply" :: r => match nats r with | some [i, k] => some (.inl (.apply i k)) | _ => none
+  | "restart" :: r => match nats r with
+    | some [i, a] => some (.inl (.restart i a))
+    | _ => none
+  | "campaign" :: r => match nats r with | some [i] => some (.inl (.campaign i)) | _ => none
+  | "lappend" :: r => match nats r with | some [i, t, k, d] => some (.inl (.leaderAppend i ⟨t, k, d⟩)) | _ => none
+  | "sendapp" :: i :: r =>
+    match i.toNat?, takeApp r with | some i, some (m, []) => some (.inl (.sendApp i m)) | _, _ => none
+  | "recvappc" :: i :: r =>
+    match i.toNat?, takeApp r with | some i, some (m, []) => some (.inl (.recvAppC i m)) | _, _ => none
+  | _ =>
+    match parseCEvent toks with
+    | some (.inl (.win i cfg q a)) => some (.inl (.win i cfg q a))
+    | some (.inl (.commitLeader i c cfg q a)) => some (.inl (.commitLeader i c cfg q a))
+    | some (.inl (.resp i rid idx cfg a)) => some (.inl (.resp i rid idx cfg a))
+    | some (.inl (.rstate j rid idx cfg a)) => some (.inl (.rstate j rid idx cfg a))
+    | some (.inl e) => some (.inl (.pc e))
+    | some (.inr _) => none      -- a line of an earlier trace format: not accepted (no way around the guards)
+    | none => none
+
 /-- the closure chain built by `upd` is flattened from time to time (ids 0..15) -/
 def compact (s : PSys) : PSys :=
   let l := (List.range 16).map s.nodes
@@ -159,24 +237,30 @@ def checkView (s : PSys) (toks : List String) : String :=
     | _, _, _, _, _, _, _, _, _ => "bad-op"
   | _ => "bad-op"
 
-def handleP (st : Option PSys) (cmd : List String) : Option PSys × String :=
+def compactD (D : DSys) : DSys := { D with pc := { D.pc with base := compact D.pc.base } }
+
+def handleP (st : Option DSys) (cmd : List String) : Option DSys × String :=
   match cmd with
-  | ["new"] => (some init, "ok")
-  | ["new", _] => (some init, "ok")
+  | ["new"] => (some dinit, "ok")
+  | ["new", _] => (some dinit, "ok")
   | "ev" :: toks =>
     match st with
     | none => (none, "skip")
-    | some s =>
-      match parseEvent toks with
+    | some D =>
+      match parseDEvent toks with
       | none => (none, "bad-op")
-      | some e =>
-        match applyEvent s e with
-        | .ok s' => (some s', "ok")
+      | some (.inl e) =>
+        match applyEventD D e with
+        | .ok D' => (some D', "ok")
+        | .error why => (none, "reject " ++ why)
+      | some (.inr e) =>
+        match applyEvent D.pc.base e with
+        | .ok b => (some { D with pc := { D.pc with base := b } }, "ok")
         | .error why => (none, "reject " ++ why)
   | "view" :: toks =>
     match st with
     | none => (none, "skip")
-    | some s => let s := compact s; (some s, checkView s toks)
+    | some D => let D := compactD D; (some D, checkView D.pc.base toks)
   | ["end"] => (none, "ok")
   | _ => (none, "bad-op")
 
